@@ -262,7 +262,9 @@ CHECKS["C09"] = dict(
          "coordinates (C04) and tree distances (C11) are taken from the implementation and judged with a 1e-9 margin; numba prange "
          "scheduling is exercised with 1/2/7/16 threads (set_num_threads per case, NUMBA_NUM_THREADS sub-processes in thorough) but only the "
          "order-independence of the loop body is proved; Incidence.Pre of the subset is evaluated per case, not proved from the source; "
-         "geometric quantities of the subset are compared with the source's at the recorded indices (float tolerance 1e-9).",
+         "geometric quantities of the subset are compared with the source's at the recorded indices (float tolerance 1e-9). Latitudes equal "
+         "to a node's are judged EXACTLY (Lean CrossExact on the implementation's own doubles, facesAt_meets_crossExact) whenever no other "
+         "node lies within 1e-9; only genuinely near (unequal) nodes fall under the margin.",
     technique="Lean 4 theorems over a hand model (repaired algorithm + as-is counterexamples) + differential correspondence with Lean-evaluated specs",
 )
 
@@ -298,7 +300,9 @@ CHECKS["C07"] = dict(
           "1-3 grids (lon/lat-only and Cartesian-only sources, sizes 3..10, partial/global) run on the real code; every export is judged by "
           "the Lean predicates, re-opened with ux.open_grid directly and after to_netcdf to a scratch file and compared face-for-face by "
           "Lean's RoundTripOK, and the whole history is compared with the Lean model's run; every reported failing history is re-confirmed "
-          "in a fresh interpreter."),
+          "in a fresh interpreter. Grids with unused nodes / an isolated first face are generated and EVERY carried connectivity table of the "
+          "re-opened grid is compared entry by entry (Lean C07.tables); the reader model standardises by the start_index attribute "
+          "(standardize_zero: an explicit 0 shifts nothing; falsy_start_index_shifts is the counterexample for a reader that treats 0 as absent)."),
     note=_TB + "Modelled, not verified: netCDF4/xarray serialisation, Dataset.rename/copy, NumPy indexing, float conversions "
          "(lon/lat<->xyz are parameters with a stated inverse hypothesis); positions are compared through the nearest original node within 1e-7. "
          "Round trips are stated for the readers named in the theorems (all-blocks Exodus reader; SCRIP reader reading trailing repeats as "
@@ -383,7 +387,8 @@ CHECKS["C15"] = dict(
           "returned_object_stable_partial; proved as-is counterexamples for the repaired defects (fixes b2818bfe, 52b55a0e, 0dcb168c) and for the "
           "known findings. Tie: the real public API on generated grids x 5 exporters x 3 policies x 4 projections x 2 engines x random and "
           "directed histories; the Lean Spec is evaluated on every observed conversion, the Lean state machine is run on the same history, and "
-          "every step is compared with the same conversion on a new grid."),
+          "every step is compared with the same conversion on a new grid. 'split' exports: every ring of all three exporters is checked for "
+          ">= 180 degree segments and for the pieces' spherical area."),
     note=_TB + "Partial: history-freedom is proved for histories of caching conversions (an un-cached conversion poisons the side tables: known "
          "finding); object stability is proved for geometry in full and for columns unless a data-array frame conversion is served from the cache "
          "(known finding); 'ignore' + projection and PolyCollection 'split' on clockwise faces are known findings. Which faces project to NaN, where "
